@@ -127,7 +127,9 @@ def run_task(task, tr):
                         dom.append(d.lt(0, i))
                     if name.startswith('pinv'):
                         dom += [d.le(0, i), d.lt(i, 1)]
-                obligations('after update: ', site.rates(), site.probabilities())
+                # after the update probabilities() is asked FIRST (a flag cleared by one accessor must not leave the other stale)
+                probs_first = site.probabilities()
+                obligations('after update: ', site.rates(), probs_first)
         except Exception as e:
             tr.violation(f'{kind}:raises', f'{label}: raises {type(e).__name__}: {e}', {'label': label})
             return
@@ -146,47 +148,56 @@ def run_task(task, tr):
 
 
 def replay_case(kind, K, mu, batched, vals):
+    """the same history on plain tensors: evaluate, update every parameter, probabilities() first, then rates()"""
     site, dic = cm.build(model_json(kind, K, mu))
     B = 2 if batched else 1
 
-    def setp(key, prefixes, default):
+    def setp(key, pre, default, lo, hi):
         if key not in dic:
             return None
-        for pre in prefixes:
-            rows = []
-            found = False
-            for b in range(B):
-                nm = f'{pre}[{b},0]' if batched else f'{pre}[0]'
-                if nm in vals:
-                    found = True
-                rows.append([vals.get(nm, default)] if batched else vals.get(nm, default))
-            if found:
-                break
+        rows = []
+        for b in range(B):
+            nm = f'{pre}[{b},0]' if batched else f'{pre}[0]'
+            v = vals.get(nm, default)
+            if not (lo < v < hi):
+                v = default
+            rows.append([v] if batched else v)
         tns = torch.tensor(rows if batched else [rows[0]], dtype=torch.float64)
         dic[key].tensor = tns
         return tns
 
-    sh = setp('shape', ['shape2_', 'shape'], 0.7)
-    pv = setp('pinv', ['pinv2_', 'pinv'], 0.2)
-    m = setp('mu', ['mu2_', 'mu'], 1.3)
-    if (sh is not None and (sh <= 0).any()) or (pv is not None and ((pv < 0) | (pv >= 1)).any()) or (m is not None and (m <= 0).any()):
-        return False, 'counterexample outside the domain'
+    def check(tag, r, p, pv, m):
+        r = r.to(torch.float64)
+        p = p.to(torch.float64)
+        target = m.reshape(-1) if m is not None else torch.ones(1, dtype=torch.float64)
+        mean = (r * p).sum(-1).reshape(-1)
+        if not torch.allclose(p.sum(-1), torch.ones_like(p.sum(-1)), atol=1e-10):
+            return f'{tag}probabilities {p.tolist()} do not sum to one'
+        if (p < 0).any() or (r < 0).any():
+            return f'{tag}negative rate/probability: rates={r.tolist()} probs={p.tolist()}'
+        if not torch.allclose(mean, target.expand_as(mean), rtol=1e-9):
+            return f'{tag}mean rate {mean.tolist()} != {target.tolist()} (rates={r.tolist()}, probs={p.tolist()})'
+        if 'inv' in kind:
+            if (r[..., 0] != 0).any() or not torch.allclose(p[..., 0].reshape(-1), pv.reshape(-1)):
+                return f'{tag}invariant class: rate {r[..., 0].tolist()} prob {p[..., 0].tolist()} pinv {pv.tolist()}'
+        return None
+
     try:
-        r = site.rates().to(torch.float64)
-        p = site.probabilities().to(torch.float64)
+        setp('shape', 'shape', 0.7, 0, 1e9)
+        pv = setp('pinv', 'pinv', 0.2, -1e-12, 1)
+        m = setp('mu', 'mu', 1.3, 0, 1e9)
+        bad = check('', site.rates(), site.probabilities(), pv, m)
+        if bad:
+            return True, bad
+        setp('shape', 'shape2_', 0.9, 0, 1e9)
+        pv = setp('pinv', 'pinv2_', 0.35, -1e-12, 1)
+        m = setp('mu', 'mu2_', 0.8, 0, 1e9)
+        probs = site.probabilities()
+        bad = check('after update (probabilities() asked first): ', site.rates(), probs, pv, m)
+        if bad:
+            return True, bad
     except Exception as e:
         return True, f'raises {type(e).__name__}: {e}'
-    target = m.reshape(-1) if m is not None else torch.ones(1, dtype=torch.float64)
-    mean = (r * p).sum(-1).reshape(-1)
-    if not torch.allclose(p.sum(-1), torch.ones_like(p.sum(-1)), atol=1e-10):
-        return True, f'probabilities {p.tolist()} do not sum to one'
-    if (p < 0).any() or (r < 0).any():
-        return True, f'negative rate/probability: rates={r.tolist()} probs={p.tolist()}'
-    if mean.shape != target.expand_as(mean).shape or not torch.allclose(mean, target.expand_as(mean), rtol=1e-9):
-        return True, f'mean rate {mean.tolist()} != {target.tolist()} (rates={r.tolist()}, probs={p.tolist()})'
-    if 'inv' in kind:
-        if (r[..., 0] != 0).any() or not torch.allclose(p[..., 0].reshape(-1), pv.reshape(-1)):
-            return True, f'invariant class: rate {r[..., 0].tolist()} prob {p[..., 0].tolist()} pinv {pv.tolist()}'
     return False, 'agree'
 
 
